@@ -824,10 +824,20 @@ func ruleAtomOrderByName(c *Ctx, r *Report) {
 		r.undecided(rule, "anchor:Atom.Compare/String", "-", "locate Atom.Compare and Atom.String", "not found")
 		return
 	}
+	// String itself, or a method of Atom without parameters that returns a string and that String delegates to
+	// (String = lock + name(): met with seed C14i, where the rule raised a false alarm on the split)
+	nameFns := map[*ssa.Function]bool{str: true}
+	eachInstr(str, func(in ssa.Instruction) {
+		if ci, ok := in.(ssa.CallInstruction); ok {
+			if callee := ci.Common().StaticCallee(); callee != nil && recvNamed(callee) == "Atom" && callee.Signature.Params().Len() == 0 && callee.Signature.Results().Len() == 1 && isStringType(callee.Signature.Results().At(0).Type()) {
+				nameFns[callee] = true
+			}
+		}
+	})
 	isName := func(v ssa.Value) bool {
 		ok := false
 		for _, l := range c.originSet(v) {
-			if call, _ := callOfValue(l); call != nil && call.Call.StaticCallee() == str {
+			if call, _ := callOfValue(l); call != nil && nameFns[call.Call.StaticCallee()] {
 				ok = true
 			} else {
 				return false
